@@ -1,6 +1,294 @@
 package main
 
+import (
+	"fmt"
+	"go/token"
+	"go/types"
+
+	"golang.org/x/tools/go/ssa"
+)
+
 type regFn func(name, doc string, f externFn, mods ...string)
 
-func (e *Engine) registerIOExterns(reg regFn)   {}
-func (e *Engine) registerSyncExterns(reg regFn) {}
+func (e *Engine) builtinGhosts() {
+	e.ghosts["rem"] = &GhostDecl{Name: "rem", Ty: specBytes}         // unread input of a reader (prophecy of what the peer sends)
+	e.ghosts["out"] = &GhostDecl{Name: "out", Ty: specBytes}         // bytes written to a writer so far
+	e.ghosts["cancelled"] = &GhostDecl{Name: "cancelled", Ty: specBool} // context is done
+	e.ghosts["closedch"] = &GhostDecl{Name: "closedch", Ty: specBool}  // channel is closed
+	e.ghosts["held"] = &GhostDecl{Name: "held", Ty: specBool}          // mutex held by the current thread
+	e.ghosts["released"] = &GhostDecl{Name: "released", Ty: specBool}  // resource ledger
+}
+
+// refOf yields the identity (Int) of a reader/writer/context value.
+func refOf(st *State, v Val) string {
+	if _, ok := v.Ty.Underlying().(*types.Interface); ok {
+		return "(i_ref " + v.T + ")"
+	}
+	return st.term(v)
+}
+
+func (st *State) ghost(name string) *GhostDecl { return st.e.ghosts[name] }
+
+// anyError yields an arbitrary non-nil error value of a dynamic type outside the analysed packages
+// (I/O errors: io.EOF, io.ErrUnexpectedEOF, net errors, ...) and records that an I/O failure happened.
+func anyError(st *State, t types.Type) Val {
+	v := st.fresh("ioerr", t)
+	st.assume(fmt.Sprintf("(> (i_tag %s) %d)", v.T, maxKnownTag))
+	st.markIOFail()
+	return v
+}
+
+func nilError(t types.Type) Val { return Val{T: "(mk_iface 0 0)", Ty: t} }
+
+// writeWindow replaces the content of the []byte window sl by the byte string b (blen b = len sl).
+func (st *State) writeWindow(sl string, b string) {
+	e := st.e
+	e.needWin()
+	st.groups["bytes"] = true
+	id, sort, h := st.elemHeap(types.Typ[types.Uint8])
+	h2 := e.freshName("H_" + sanitize(id))
+	st.declare(h2, sort)
+	base, off, ln := "(s_base "+sl+")", "(s_off "+sl+")", "(s_len "+sl+")"
+	st.assume("(forall ((b Int)) (! (=> (not (= b " + base + ")) (= (select " + h2 + " b) (select " + h + " b))) :pattern ((select " + h2 + " b))))")
+	st.assume("(forall ((k Int)) (! (=> (or (< k " + off + ") (>= k (+ " + off + " " + ln + "))) (= (select (select " + h2 + " " + base + ") k) (select (select " + h + " " + base + ") k))) :pattern ((select (select " + h2 + " " + base + ") k))))")
+	st.assume("(= (win (select " + h2 + " " + base + ") " + off + " " + ln + ") " + b + ")")
+	st.heapTerm(id, sort)
+	st.heap[id] = h2
+}
+
+func intKindSize(t types.Type) int {
+	_, _, bits, _ := intRange(t)
+	return int(bits / 8)
+}
+
+func (e *Engine) registerIOExterns(reg regFn) {
+	e.builtinGhosts()
+	errT := types.Universe.Lookup("error").Type()
+	intT := types.Typ[types.Int]
+
+	reg("encoding/binary.Size", "binary.Size of a fixed-size integer value is its width in bytes", func(x *Exec, st *State, fr *frame, c *ssa.CallCommon, args []Val, pos token.Pos) []callOut {
+		v := args[0]
+		if v.Dyn != nil {
+			t := v.Dyn
+			if p, ok := t.Underlying().(*types.Pointer); ok {
+				t = p.Elem()
+			}
+			if n := intKindSize(t); n > 0 {
+				return one(st, Val{T: fmt.Sprint(n), Ty: intT})
+			}
+		}
+		r := st.fresh("binsize", intT)
+		return one(st, r)
+	})
+
+	reg("encoding/binary.Read", "binary.Read(r, LE, *uintN): if at least N bytes remain: consumes exactly N bytes, stores their little-endian value, nil error; otherwise (or on an I/O error) a non-nil error and an arbitrary part of the input consumed; independent of how the underlying reads are chunked",
+		func(x *Exec, st *State, fr *frame, c *ssa.CallCommon, args []Val, pos token.Pos) []callOut {
+			e := x.e
+			e.needBytes()
+			st.groups["bytes"] = true
+			r, data := args[0], args[2]
+			g := st.ghost("rem")
+			ref := refOf(st, r)
+			R := st.name("R", "Bytes", st.ghostRead(g, ref))
+			var target *Addr
+			var n int
+			var tt types.Type
+			if data.Dyn != nil && data.Payload != nil {
+				if p, ok := data.Dyn.Underlying().(*types.Pointer); ok {
+					n = intKindSize(p.Elem())
+					tt = p.Elem()
+					if data.Payload.Addr != nil {
+						target = data.Payload.Addr
+					} else {
+						target = &Addr{Kind: AObj, Loc: data.Payload.T, RootTy: p.Elem()}
+					}
+				}
+			}
+			if n == 0 {
+				// unsupported target (e.g. []byte): arbitrary effect
+				x.fail(st, "binary.Read", "target type not modelled")
+				return nil
+			}
+			// failure
+			s2 := st.clone()
+			s2.note("binary.Read fails")
+			k := s2.freshSort("k", "Int")
+			s2.assume(and("(<= 0 "+k+")", "(<= "+k+" (blen "+R+"))"))
+			s2.assume(or("(< (blen "+R+") "+fmt.Sprint(n)+")", "true")) // an I/O error may strike even if enough bytes would have come
+			s2.ghostWrite(g, ref, "(bdrop "+R+" "+k+")")
+			fv := s2.fresh("partial", tt)
+			s2.store(target, fv)
+			out2 := callOut{st: s2, val: anyError(s2, errT)}
+			// success
+			st.note("binary.Read succeeds")
+			st.assume(fmt.Sprintf("(>= (blen %s) %d)", R, n))
+			st.store(target, Val{T: fmt.Sprintf("(dec%d (btake %s %d))", n, R, n), Ty: tt})
+			st.ghostWrite(g, ref, fmt.Sprintf("(bdrop %s %d)", R, n))
+			return []callOut{{st: st, val: nilError(errT)}, out2}
+		}, "gh:rem", "gh:$iofail")
+
+	reg("io.ReadFull", "io.ReadFull(r, p): if at least len(p) bytes remain: fills p with exactly the next len(p) bytes, returns (len(p), nil); otherwise (or on an I/O error) returns (k, err != nil) with k < len(p) (k = 0 allowed for len(p) = 0 only with nil error), p's window arbitrary, part of the input consumed",
+		func(x *Exec, st *State, fr *frame, c *ssa.CallCommon, args []Val, pos token.Pos) []callOut {
+			e := x.e
+			e.needBytes()
+			st.groups["bytes"] = true
+			r, p := args[0], args[1]
+			g := st.ghost("rem")
+			ref := refOf(st, r)
+			R := st.name("R", "Bytes", st.ghostRead(g, ref))
+			ln := "(s_len " + p.T + ")"
+			// failure
+			s2 := st.clone()
+			s2.note("io.ReadFull fails")
+			k := s2.freshSort("k", "Int")
+			s2.assume(and("(<= 0 "+k+")", "(< "+k+" "+ln+")", "(<= "+k+" (blen "+R+"))"))
+			junk := s2.freshSort("junk", "Bytes")
+			s2.assume("(= (blen " + junk + ") " + ln + ")")
+			s2.writeWindow(p.T, junk)
+			c2 := s2.freshSort("c", "Int")
+			s2.assume(and("(<= "+k+" "+c2+")", "(<= "+c2+" (blen "+R+"))"))
+			s2.ghostWrite(g, ref, "(bdrop "+R+" "+c2+")")
+			out2 := callOut{st: s2, val: Val{Tuple: []Val{{T: k, Ty: intT}, anyError(s2, errT)}}}
+			// success
+			st.note("io.ReadFull succeeds")
+			st.assume("(>= (blen " + R + ") " + ln + ")")
+			st.writeWindow(p.T, "(btake "+R+" "+ln+")")
+			st.ghostWrite(g, ref, "(bdrop "+R+" "+ln+")")
+			return []callOut{{st: st, val: Val{Tuple: []Val{{T: ln, Ty: intT}, nilError(errT)}}}, out2}
+		}, "gh:rem", "E:uint8", "gh:$iofail")
+
+	reg("io.CopyN", "io.CopyN(io.Discard, r, n): if at least n bytes remain: consumes exactly n bytes, returns (n, nil); otherwise (or on an I/O error) (k < n, err != nil)",
+		func(x *Exec, st *State, fr *frame, c *ssa.CallCommon, args []Val, pos token.Pos) []callOut {
+			e := x.e
+			e.needBytes()
+			st.groups["bytes"] = true
+			r, n := args[1], args[2]
+			g := st.ghost("rem")
+			ref := refOf(st, r)
+			R := st.name("R", "Bytes", st.ghostRead(g, ref))
+			i64 := types.Typ[types.Int64]
+			s2 := st.clone()
+			s2.note("io.CopyN fails")
+			k := s2.freshSort("k", "Int")
+			s2.assume(and("(<= 0 "+k+")", "(< "+k+" "+n.T+")", "(<= "+k+" (blen "+R+"))"))
+			s2.ghostWrite(g, ref, "(bdrop "+R+" "+k+")")
+			out2 := callOut{st: s2, val: Val{Tuple: []Val{{T: k, Ty: i64}, anyError(s2, errT)}}}
+			// n <= 0 copies nothing
+			st.note("io.CopyN succeeds")
+			nn := "(ite (< " + n.T + " 0) 0 " + n.T + ")"
+			st.assume("(>= (blen " + R + ") " + nn + ")")
+			st.ghostWrite(g, ref, "(bdrop "+R+" "+nn+")")
+			return []callOut{{st: st, val: Val{Tuple: []Val{{T: nn, Ty: i64}, nilError(errT)}}}, out2}
+		}, "gh:rem", "gh:$iofail")
+
+	reg("encoding/binary.Write", "binary.Write(w, LE, uintN): appends the N-byte little-endian encoding to the writer's output, nil error; or fails with a non-nil error having written an arbitrary part",
+		func(x *Exec, st *State, fr *frame, c *ssa.CallCommon, args []Val, pos token.Pos) []callOut {
+			e := x.e
+			e.needBytes()
+			st.groups["bytes"] = true
+			w, data := args[0], args[2]
+			g := st.ghost("out")
+			ref := refOf(st, w)
+			O := st.name("O", "Bytes", st.ghostRead(g, ref))
+			n := 0
+			var v string
+			if data.Dyn != nil && data.Payload != nil {
+				if nn := intKindSize(data.Dyn); nn > 0 {
+					n = nn
+					v = data.Payload.T
+				}
+			}
+			if n == 0 {
+				x.fail(st, "binary.Write", "value type not modelled")
+				return nil
+			}
+			s2 := st.clone()
+			s2.note("binary.Write fails")
+			junk := s2.freshSort("junk", "Bytes")
+			s2.assume(fmt.Sprintf("(< (blen %s) %d)", junk, n))
+			s2.ghostWrite(g, ref, "(bcat "+O+" "+junk+")")
+			x.event(s2, "write-fail")
+			out2 := callOut{st: s2, val: anyError(s2, errT)}
+			st.note("binary.Write succeeds")
+			st.ghostWrite(g, ref, fmt.Sprintf("(bcat %s (le%d %s))", O, n, v))
+			x.event(st, "write", fmt.Sprintf("(le%d %s)", n, v))
+			return []callOut{{st: st, val: nilError(errT)}, out2}
+		}, "gh:out", "gh:$iofail")
+
+	reg("invoke:io.Writer.Write", "w.Write(p): appends p's bytes to the writer's output and returns (len(p), nil); or returns (k <= len(p), err != nil); or (for writers violating the io.Writer contract) (k < len(p), nil) having written k bytes",
+		func(x *Exec, st *State, fr *frame, c *ssa.CallCommon, args []Val, pos token.Pos) []callOut {
+			e := x.e
+			e.needBytes()
+			st.groups["bytes"] = true
+			w, p := args[0], args[1]
+			g := st.ghost("out")
+			ref := refOf(st, w)
+			O := st.name("O", "Bytes", st.ghostRead(g, ref))
+			ln := "(s_len " + p.T + ")"
+			W := st.name("W", "Bytes", st.window(p.T))
+			// failure with error
+			s2 := st.clone()
+			s2.note("Write fails")
+			k := s2.freshSort("k", "Int")
+			s2.assume(and("(<= 0 "+k+")", "(<= "+k+" "+ln+")"))
+			s2.ghostWrite(g, ref, "(bcat "+O+" (btake "+W+" "+k+"))")
+			x.event(s2, "write-fail")
+			out2 := callOut{st: s2, val: Val{Tuple: []Val{{T: k, Ty: intT}, anyError(s2, errT)}}}
+			// short write without error
+			s3 := st.clone()
+			s3.note("Write is short without error")
+			k3 := s3.freshSort("k", "Int")
+			s3.assume(and("(<= 0 "+k3+")", "(< "+k3+" "+ln+")"))
+			s3.ghostWrite(g, ref, "(bcat "+O+" (btake "+W+" "+k3+"))")
+			s3.markIOFail()
+			x.event(s3, "write-fail")
+			out3 := callOut{st: s3, val: Val{Tuple: []Val{{T: k3, Ty: intT}, nilError(errT)}}}
+			st.note("Write succeeds")
+			st.ghostWrite(g, ref, "(bcat "+O+" "+W+")")
+			x.event(st, "write", W)
+			return []callOut{{st: st, val: Val{Tuple: []Val{{T: ln, Ty: intT}, nilError(errT)}}}, out2, out3}
+		}, "gh:out", "gh:$iofail")
+
+	reg("bufio.(*Writer).Flush", "bufio.Writer is a transparent byte pipe to the connection: Flush does not change the byte sequence written; it returns nil or an I/O error",
+		func(x *Exec, st *State, fr *frame, c *ssa.CallCommon, args []Val, pos token.Pos) []callOut {
+			s2 := st.clone()
+			s2.note("Flush fails")
+			x.event(s2, "flush-fail")
+			x.event(st, "flush")
+			return []callOut{{st: st, val: nilError(errT)}, {st: s2, val: anyError(s2, errT)}}
+		}, "gh:$iofail")
+
+	// ---- context / time / net.Conn
+	reg("invoke:context.Context.Done", "ctx.Done(): the channel of ctx; it is closed iff ctx is cancelled",
+		func(x *Exec, st *State, fr *frame, c *ssa.CallCommon, args []Val, pos token.Pos) []callOut {
+			e := x.e
+			e.d.add("done_of", "(declare-fun done_of (Int) Int)")
+			ref := refOf(st, args[0])
+			ch := "(done_of " + ref + ")"
+			st.assume("(> " + ch + " 0)")
+			st.assume(eq(st.ghostRead(st.ghost("closedch"), ch), st.ghostRead(st.ghost("cancelled"), ref)))
+			return one(st, Val{T: ch, Ty: c.Signature().Results().At(0).Type()})
+		})
+	reg("invoke:context.Context.Err", "ctx.Err(): non-nil iff ctx is cancelled",
+		func(x *Exec, st *State, fr *frame, c *ssa.CallCommon, args []Val, pos token.Pos) []callOut {
+			ref := refOf(st, args[0])
+			v := st.fresh("ctxerr", errT)
+			st.assume(eq("(not (= (i_tag "+v.T+") 0))", st.ghostRead(st.ghost("cancelled"), ref)))
+			st.assume("(or (= (i_tag " + v.T + ") 0) (> (i_tag " + v.T + ") " + fmt.Sprint(maxKnownTag) + "))")
+			return one(st, v)
+		})
+	pureFresh := func(x *Exec, st *State, fr *frame, c *ssa.CallCommon, args []Val, pos token.Pos) []callOut {
+		return one(st, st.fresh("ext", c.Signature().Results()))
+	}
+	for _, n := range []string{"invoke:context.Context.Deadline", "invoke:context.Context.Value", "time.Now", "time.(Time).Add", "time.Unix", "time.(Time).UTC", "time.(Time).Unix",
+		"invoke:net.Conn.SetReadDeadline", "invoke:net.Conn.SetWriteDeadline", "invoke:net.Conn.SetDeadline", "invoke:net.Conn.RemoteAddr", "invoke:net.Conn.LocalAddr",
+		"invoke:net.Error.Timeout", "invoke:net.Error.Temporary", "invoke:error.Error"} {
+		reg(n, "no effect on modelled state; arbitrary result", pureFresh)
+	}
+}
+
+// markIOFail bumps the ghost counter of I/O failures (monotone; iofailed() compares it with its old() value).
+func (st *State) markIOFail() {
+	c := st.heapTerm("gh:$iofail", "Int")
+	st.setHeap("gh:$iofail", "Int", "(+ "+c+" 1)")
+}
